@@ -226,7 +226,12 @@ func runC19(c *Ctx) {
 		})
 		okCnt = first && len(got) == 4 && got[0] == 1 && got[1] == 2 && got[2] == 3 && got[3] == 4
 		c.check(okCnt, "C19.layout", "block counter encoding", f, "4-byte big-endian block number, first block 1", fmt.Sprintf("the block counter is not the big-endian 32-bit block number starting at 1 (bytes for 0x01020304: %v, starts at 1: %v)", got, first))
-		c19HashOrder(c, f, pw, salt, cntBase)
+		c19HashLengths(c)
+		// the order/provenance rule below assumes the streaming form
+		// (h.Write(salt); h.Write(cnt); h.Sum): it is run only when that form is present
+		if len(callsNamed(f, "crypto/sha512.New")) == 1 {
+			c19HashOrder(c, f, pw, salt, cntBase)
+		}
 	} else {
 		c.fail("C19.layout", "block counter encoding", f, "block loop variable not found")
 	}
